@@ -13,7 +13,7 @@ import (
 
 type p1Case struct {
 	Cfg     scen.P1Config `json:"cfg"`
-	FileDmg []int         `json:"fdmg"` // per file: 0 ok, 1 deleted, 2 last byte changed, 3 truncated by one, 4 emptied, 5 garbage of same length
+	FileDmg []int         `json:"fdmg"` // per file: 0 ok, 1 deleted, 2 last byte changed, 3 truncated by one, 4 emptied, 5 garbage of same length, 6 cut to exactly 16384 bytes, 7 a byte changed beyond the first 16 KiB
 	VolDel  []int         `json:"voldel,omitempty"` // volumes (1-based) deleted
 	VolDmg  []int         `json:"voldmg,omitempty"` // per volume: 0 ok, 1 deleted, 2 one byte corrupted, 3 replaced by a foreign set's volume, 4 truncated, 5 valid hashes but wrong parity data
 	DC      bool          `json:"dc,omitempty"`
@@ -44,6 +44,18 @@ func applyP1(s *scen.P1Set, c *p1Case, seed int64) *envfs.FS {
 			fs.Put(s.Paths[i], nil)
 		case 5:
 			fs.Put(s.Paths[i], scen.Garbage(seed, 50+i, len(b)))
+		case 6:
+			// cut down to exactly the first 16 KiB (the part the first-16-KiB hash covers)
+			if len(b) > 16384 {
+				fs.Put(s.Paths[i], b[:16384])
+			}
+		case 7:
+			// a byte changed beyond the first 16 KiB
+			if len(b) > 16384 {
+				nb := append([]byte{}, b...)
+				nb[16384+(len(nb)-16384)/2] ^= 0x04
+				fs.Put(s.Paths[i], nb)
+			}
 		}
 	}
 	for _, v := range c.VolDel {
@@ -240,6 +252,16 @@ func c04Gen(g *core.Gen) {
 	c04Deviate(g, base, 2)
 	big := scen.P1Config{Sizes: []int{16383, 16384, 16385, 20000}, Volumes: 4}
 	c04Deviate(g, big, 2)
+	for _, k := range []int{6, 7} {
+		for f := 2; f <= 3; f++ {
+			fd := make([]int, 4)
+			fd[f] = k
+			g.Emit(&p1Case{Cfg: big, FileDmg: fd, DC: k == 6})
+			fd2 := append([]int{}, fd...)
+			fd2[0] = 1
+			g.Emit(&p1Case{Cfg: big, FileDmg: fd2, VolDel: []int{1}})
+		}
+	}
 	for _, v := range []int{10, 98, 99} {
 		many := scen.P1Config{Sizes: []int{5, 8, 2}, Volumes: v}
 		// delete a prefix of volumes so that later ones (non-contiguous rows) are used
